@@ -601,6 +601,9 @@ class Interp:
                     return ('err', cls)
                 if adt in self.variants:
                     return E(adt, rv.j['variant'], *payload)
+                if any(isinstance(pv, tuple) and pv and pv[0] in ('rset', 'rsetp') for pv in payload) and body.key.startswith(self.reader.rsplit('::', 1)[0] + '::'):
+                    # the record set is wrapped into a private object (`SetFill { rset, .. }`) whose methods fill it: not followed
+                    self.imprecise.add('the record set is handed to a private object (%s) that fills it' % adt)
                 return ('struct', adt)
             if a == 'tuple':
                 if not rv.ops:
